@@ -59,6 +59,15 @@
         specification on this text (value "x"; accepted as finding WFNS23 says).  A statement for documents
         with a DOCTYPE needs the extra hypothesis that no declared entity is named lt, gt, amp, apos or quot
         (or that [valid] demands it); the generator of checks/C01.py never produces such a declaration.
+    (h) round 2 -- "WELL-FORMED IMPLIES ACCEPTED" IS REFUTED FOR DOCUMENTS WITH A DOCTYPE, by the model of the
+        real code ([wellformed_is_accepted_refuted]; the real crates answer the same):
+          <!DOCTYPE a [<!ENTITY e "<!-- &u; -->">]><a>&e;</a>
+        is namespace-well-formed (the replacement text of e is a comment; inside a comment `&u;` is no
+        reference; expat agrees) and is REJECTED: XmlDocument::new looks for references in the entity
+        LITERAL and demands that u be declared.  The same with `&u;` inside a CDATA section or a PI of the
+        replacement text, and with `&e;` there (reported as recursion).  A finding of this round
+        (notes/wf_STATUS.md), outside the profile of [valid] ([ent_items_ok] allows no markup in entity
+        values), so (f) is not affected; (e) cannot be extended to all documents with a DOCTYPE.
     Not proved: documents WITH a document type declaration -- the DTD rung of [render_wf] (renderings of
     the declarations read back by the specification, the constraints with declared entities and defaulted
     attributes) and the converse (e) for the internal subset -- and, for all documents, [parse_render]
@@ -199,6 +208,17 @@ Proof.
   vm_compute. intros H. discriminate H.
 Qed.
 
+(** ** (h) a well-formed document with a DOCTYPE that the implementation rejects *)
+(* <!DOCTYPE a [<!ENTITY e "<!-- &u; -->">]><a>&e;</a> *)
+Definition ex_comment_ref : str := [60;33;68;79;67;84;89;80;69;32;97;32;91;60;33;69;78;84;73;84;89;32;101;32;34;60;33;45;45;32;38;117;59;32;45;45;62;34;62;93;62;60;97;62;38;101;59;60;47;97;62]%N.
+
+Theorem wellformed_is_accepted_refuted : exists s, wf s = true /\ forall d, Info.from_raw s <> Info.OOk ([], d).
+Proof.
+  exists ex_comment_ref. split; [vm_compute; reflexivity|]. intros d H.
+  assert (E : match Info.from_raw ex_comment_ref with Info.OInfoErr _ => true | _ => false end = true) by (vm_compute; reflexivity).
+  rewrite H in E. discriminate E.
+Qed.
+
 Example rendered_nontrivial :
   comment_ok [32;97;45;98;32]%N = true /\ pi_ok [112;105]%N (Some [120;63;32;62]%N) = true.
 Proof. split; vm_compute; reflexivity. Qed.
@@ -220,3 +240,4 @@ Print Assumptions render_wf_nodoctype_partial.
 Print Assumptions rendered_nodoctype_is_accepted_partial.
 Print Assumptions render_wf_refuted.
 Print Assumptions denote_refuted.
+Print Assumptions wellformed_is_accepted_refuted.
